@@ -281,6 +281,9 @@ def ratfun(n, subst=None, depth=0):
         return ({(): Fraction(n.value).limit_denominator(10**9)} if n.value != 0 else {}), {(): Fraction(1)}
     if isinstance(n, ast.Name) and n.id in subst:
         return ratfun(subst[n.id], {k: v for k, v in subst.items() if k != n.id}, depth + 1)
+    if isinstance(n, ast.Attribute) and norm(n) in subst:
+        key = norm(n)
+        return ratfun(subst[key], {k: v for k, v in subst.items() if k != key}, depth + 1)
     if isinstance(n, (ast.Name, ast.Attribute)):
         return {((norm(n), 1),): Fraction(1)}, {(): Fraction(1)}
     if isinstance(n, ast.Call) and call_name(n) == "float" and len(n.args) == 1:
